@@ -64,7 +64,7 @@ def flit(v):
 
 
 class Spec:
-    def __init__(self, module, qual, lean, params, bools=(), consts=None, abstract=None, note='', elementwise=False, drop=(), guards=()):
+    def __init__(self, module, qual, lean, params, bools=(), consts=None, abstract=None, note='', elementwise=False, drop=(), guards=(), skip_calls=(), method_calls=None):
         self.module, self.qual, self.lean = module, qual, lean
         self.params = list(params)          # python names that become α parameters, in order
         self.bools = list(bools)            # python names that become Bool parameters
@@ -74,6 +74,8 @@ class Spec:
         self.elementwise = elementwise      # per-element reading of the masked-array idiom
         self.drop = set(drop)               # outputs projected away (with the statements that compute them)
         self.guards = set(guards)           # names of guard calls (abort on incompatible operands) skipped as preconditions
+        self.skip_calls = set(skip_calls)   # calls that only recompute derived attributes which are not outputs of this definition
+        self.method_calls = dict(method_calls or {})   # method name -> (lean function, builder(args as python source strings) -> list of expressions)
 
     def obj(self):
         o = importlib.import_module(self.module)
@@ -193,6 +195,11 @@ class Translator:
         if a is not None:
             return a
         base = f.split('.')[-1]
+        if f.startswith('self.') and base in cx['spec'].method_calls:
+            lean_fn, builder = cx['spec'].method_calls[base]
+            parts = builder([ast.unparse(a_) for a_ in n.args])
+            cx['notes'].append('method call %s read as %s on %s' % (ast.unparse(n)[:80], lean_fn, parts))
+            return '(%s %s)' % (lean_fn, ' '.join(self.expr(ast.parse(p_, mode='eval').body, cx) if p_ not in ('true', 'false') else p_ for p_ in parts))
         isnp = f.startswith(('numpy.', 'np.'))
         args = n.args
         if f == 'abs' or (isnp and base in ('abs', 'absolute', 'fabs')):
@@ -351,9 +358,25 @@ class Translator:
         if spec.elementwise and isinstance(s, ast.With):
             cx['notes'].append('with %s: body inlined' % ast.unparse(s.items[0].context_expr)[:60])
             return self.block(list(s.body) + rest, cx, tail)
-        if spec.elementwise and isinstance(s, ast.Expr) and isinstance(s.value, ast.Call) and ast.unparse(s.value.func).split('.')[-1] in spec.guards:
+        if spec.elementwise and isinstance(s, ast.Expr) and isinstance(s.value, ast.Call) and ast.unparse(s.value.func).split('.')[-1].lstrip('_') in {g_.lstrip('_') for g_ in spec.guards}:
             cx['notes'].append('guard call (aborts on incompatible operands): %s' % ast.unparse(s.value)[:100])
             return self.block(rest, cx, tail)
+        if spec.elementwise and isinstance(s, ast.Expr) and isinstance(s.value, ast.Call) and ast.unparse(s.value.func).split('.')[-1].lstrip('_') in {g_.lstrip('_') for g_ in spec.skip_calls}:
+            cx['notes'].append('call that recomputes derived attributes (not outputs here): %s' % ast.unparse(s.value)[:100])
+            return self.block(rest, cx, tail)
+        if spec.elementwise and isinstance(s, ast.AugAssign) and isinstance(s.target, ast.Attribute) and isinstance(s.target.value, ast.Name) and s.target.value.id == 'self':
+            op = {ast.Add: '+', ast.Sub: '-', ast.Mult: '*', ast.Div: '/'}.get(type(s.op))
+            if op is None:
+                raise Untranslatable('augassign op')
+            nm = 'self_' + s.target.attr
+            cur = self.expr(s.target, cx)
+            v = self.expr(s.value, cx)
+            if nm not in cx['selfattrs']:
+                cx['selfattrs'].append(nm)
+            cx['env'][nm] = nm
+            if nm not in cx['assigned_self']:
+                cx['assigned_self'].append(nm)
+            return 'let %s := (%s %s %s)\n%s' % (nm, cur, op, v, self.block(rest, cx, tail))
         if spec.elementwise and isinstance(s, ast.Return) and isinstance(s.value, ast.Name) and s.value.id == 'self':
             if not cx['assigned_self']:
                 raise Untranslatable('return self without state update')
